@@ -32,6 +32,13 @@ CLAIMED = {
         "note": "Partial edits when a `?` fails inside a loop of mutations are not decided (value ranges). " + TRUST,
         "technique": "CFG reachability from push sites to `?`/Err exits, callee fallibility via call graph",
     },
+    "C05": {
+        "level": "Static decision of the evaluation-mark typestate: Evaluating is always followed by Evaluated before return, "
+                 "the state lookup dominates the mark, the Evaluating arm is the only non-codec producer of Error::CIRC, "
+                 "restart clears sit inside the restart loop before phase-1 evaluation, writers of Model.cells/support.",
+        "note": "Does not decide that stored values equal the formulas' values. " + TRUST,
+        "technique": "CFG must-pass-through and dominance + who-may-construct / who-may-write",
+    },
     "C08": {
         "level": "Static decision of the property's own sink clause: every construction of a stored number (FormulaValue::Number, "
                  "SpillValue::Number, Cell::NumberCell) in both crates is a literal, a copy of a stored number, or dominated by a "
@@ -68,6 +75,13 @@ CLAIMED = {
         "note": "Ordering/disjointness of the cols vector is not decided (C27). " + TRUST,
         "technique": "reaching-definition provenance of aggregate fields and in-place field stores",
     },
+    "C21": {
+        "level": "Static decision of the correspondence: both conversions are translations; literals read from MIR satisfy "
+                 "EXCEL_DATE_BASE = ordinal(base date) - k; identical bounds mapping to 1899-12-31 and 9999-12-31; every "
+                 "num_days_from_ce site subtracts the same constant (exhaustive over both crates).",
+        "note": "chrono's calendar arithmetic trusted; WEEKDAY's return-type table not decided. " + TRUST,
+        "technique": "constant extraction from MIR + algebraic identity on proleptic-Gregorian ordinals + who-may-convert",
+    },
     "C23": {
         "level": "Exhaustive static decision over finite tables: Function<->field codecs extracted from MIR are mutually "
                  "inverse bijections (495 x 3 tables), xlsx names parse back, and per language (5 x 495 names, 12 errors) the "
@@ -82,6 +96,12 @@ CLAIMED = {
                  "must-pass-through before Ok).",
         "note": "bitcode's codec is trusted; printer/parser agreement on the re-parsed R1C1 text is C09's subject. " + TRUST,
         "technique": "impl/ADT closure query + CFG dominance (must-pass-through) + provenance of encode/decode operands",
+    },
+    "C34": {
+        "level": "Exhaustive finite-domain path interpretation of next_state (4 inputs): bijection with a single 4-cycle; "
+                 "provenance of every append to cycle_endpoint's result ('$', upper-cased column slice, row slice).",
+        "note": "Span arithmetic in cycle_reference is not decided. " + TRUST,
+        "technique": "finite-domain path interpreter over MIR + provenance of Vec appends",
     },
 }
 
